@@ -655,12 +655,18 @@ Section Preserve.
     - exfalso. apply (find_none _ _ Ef x1) in Hin. rewrite Hpx1, Nat.eqb_refl in Hin. discriminate.
   Qed.
 
-  (* the configuration the effect formula describes is legal *)
-  Theorem formula_legal C d tgt :
-    Legal m C -> tgt < size m -> is_history m tgt = false -> In d (ancestors m tgt) -> In d C ->
-    Legal m (add_all (entered (S (size m)) m (path_to m tgt d)) (remove_all (rev (sort_by (lt_depth_id m) (exit_set m C d tgt))) C)).
+  (* the parts of the effect formula: the entry path is a chain below d; what the exit list removes is exactly what lies
+     at or below the branch roots Bs *)
+  Theorem formula_parts C d tgt :
+    Legal m C -> tgt < size m -> In d (ancestors m tgt) -> In d C ->
+    exists x1 P' Bs,
+      path_to m tgt d = x1 :: P' /\ chain m d (x1 :: P') /\ last (x1 :: P') 0 = tgt
+      /\ remove_all (rev (sort_by (lt_depth_id m) (exit_set m C d tgt))) C = kept m Bs C
+      /\ (forall b, In b Bs -> In b (children m d)) /\ In x1 Bs
+      /\ (kind_of m d = KCompound -> forall c, In c (children m d) -> In c Bs)
+      /\ (kind_of m d = KParallel -> Bs = [x1]).
   Proof.
-    intros HL Ht Hth Hd HdC.
+    intros HL Ht Hd HdC.
     assert (Hds : d < size m) by (apply (L_range m _ HL); exact HdC).
     destruct (path_chain tgt d Ht Hd) as [Hchain Hlast].
     destruct (path_to m tgt d) as [|x1 P'] eqn:EP; [inversion Hchain|].
@@ -685,7 +691,8 @@ Section Preserve.
           apply (exit_set_sub m C d tgt y) in Hin as [_ [Hyd Hne]]. apply mem_In in Hyd.
           destruct (below_some_child y d Hys Hyd Hne) as [b [Hb Hyb]].
           assert (removedb m Bs y = true) by (apply (removedb_spec m Bs y); exists b; now split). congruence. }
-      rewrite Hrm. apply (preserve_core d x1 P' Bs C tgt HL HdC Hchain Hlast Hth); [intros b Hb; exact Hb | exact Hcx1 | intros _ c Hc; exact Hc | intros Hk; congruence].
+      exists x1, P', Bs. split; [reflexivity|]. split; [exact Hchain|]. split; [exact Hlast|]. split; [exact Hrm|].
+      split; [intros b Hb; exact Hb|]. split; [exact Hcx1|]. split; [intros _ c Hc; exact Hc | intros Hk; congruence].
     - (* parallel domain: only the target's region goes *)
       set (Bs := [x1]).
       assert (Hbr : branch_of m d tgt = Some x1) by (apply (branch_is_path_head d tgt x1 P' Ht Hchain EP)).
@@ -703,11 +710,18 @@ Section Preserve.
           apply negb_true_iff, Nat.eqb_neq. intros ->. apply (child_not_above m Hwf d x1 Hds Hcx1 Hyb).
         - apply mem_false. intros Hin. apply Hxs in Hin as [_ [_ Hb]]. apply mem_In in Hb.
           assert (removedb m Bs y = true) by (apply (removedb_spec m Bs y); exists x1; split; [now left | exact Hb]). congruence. }
-      rewrite Hrm. apply (preserve_core d x1 P' Bs C tgt HL HdC Hchain Hlast Hth).
-      + intros b Hb. destruct Hb as [<-|[]]. exact Hcx1.
-      + now left.
-      + intros Hk. congruence.
-      + intros _. reflexivity.
+      exists x1, P', Bs. split; [reflexivity|]. split; [exact Hchain|]. split; [exact Hlast|]. split; [exact Hrm|].
+      split; [intros b Hb; destruct Hb as [<-|[]]; exact Hcx1|]. split; [now left|]. split; [intros Hk; congruence | intros _; reflexivity].
+  Qed.
+
+  (* the configuration the effect formula describes is legal *)
+  Theorem formula_legal C d tgt :
+    Legal m C -> tgt < size m -> is_history m tgt = false -> In d (ancestors m tgt) -> In d C ->
+    Legal m (add_all (entered (S (size m)) m (path_to m tgt d)) (remove_all (rev (sort_by (lt_depth_id m) (exit_set m C d tgt))) C)).
+  Proof.
+    intros HL Ht Hth Hd HdC.
+    destruct (formula_parts C d tgt HL Ht Hd HdC) as [x1 [P' [Bs [EP [Hchain [Hlast [Hrm [HBs [Hx1B [Hcomp Hpar]]]]]]]]]].
+    rewrite EP, Hrm. now apply (preserve_core d x1 P' Bs C tgt).
   Qed.
 
   Theorem external_preserves_legal eng pr t tgt ev s0 s1 :
@@ -722,6 +736,7 @@ Section Preserve.
     intros d HL Hex Ht Hth Hd HdC.
     pose proof (external_effect m eng pr t tgt ev s0 s1 Hex) as Heff. cbv zeta in Heff. fold d in Heff. rewrite Hth in Heff.
     rewrite entered_nil in Heff. unfold add_all at 1 in Heff. cbn [fold_left] in Heff.
+    rewrite (exit_set_h_plain m (s_cfg s0) (s_hist s0) d tgt Hth) in Heff.
     rewrite Heff. now apply formula_legal.
   Qed.
 End Preserve.
